@@ -9,7 +9,8 @@ import typing
 from .. import tlc
 from ..core import Ctx, Outcome, Violation
 
-FORMS = ["self", "newtype", "alias", "salias", "final", "classvar", "fref", "nref", "aref", "sref"]
+FORMS = ["self", "newtype", "alias", "salias", "final", "classvar", "fref", "nref", "aref", "sref",
+         "nt_al", "nt_nt", "nt_sal", "fin_nt"]        # wrappers of wrappers
 NOKEY = {"b": "-", "f": "-"}
 MODNAME = "verif_ctxfam"
 
@@ -26,6 +27,9 @@ def build_family(bases):
             f"NT{n} = NewType('NT{n}', {path[b]})",
             f"A{n} = TypeAliasType('A{n}', {path[b]})",
             f"SA{n} = TypeAliasType('SA{n}', '{path[b]}')",
+            f"NTA{n} = NewType('NTA{n}', A{n})",
+            f"NTN{n} = NewType('NTN{n}', NT{n})",
+            f"NTS{n} = NewType('NTS{n}', SA{n})",
         ]
     mod = types.ModuleType(MODNAME)
     sys.modules[MODNAME] = mod
@@ -40,6 +44,10 @@ def build_family(bases):
         fam[(b, "salias")] = getattr(mod, f"SA{n}")
         fam[(b, "final")] = typing.Final[cls]
         fam[(b, "classvar")] = typing.ClassVar[cls]
+        fam[(b, "nt_al")] = getattr(mod, f"NTA{n}")
+        fam[(b, "nt_nt")] = getattr(mod, f"NTN{n}")
+        fam[(b, "nt_sal")] = getattr(mod, f"NTS{n}")
+        fam[(b, "fin_nt")] = typing.Final[getattr(mod, f"NT{n}")]
         fam[(b, "fref")] = typing.ForwardRef(path[b], module=MODNAME)
         fam[(b, "nref")] = typing.ForwardRef(f"NT{n}", module=MODNAME)
         fam[(b, "aref")] = typing.ForwardRef(f"A{n}", module=MODNAME)
@@ -192,7 +200,8 @@ def run(ctx: Ctx) -> Outcome:
     quick = ctx.quick
     rng = random.Random(ctx.seed)
     # 1. model level: complete state spaces, refinement + invariants
-    models = [("MC_Context_1.cfg", "1 base x 10 forms"), ("MC_Context_2.cfg", "2 bases x 6 forms")]
+    models = [("MC_Context_1.cfg", "1 base x 10 forms"), ("MC_Context_1w.cfg", "1 base x 14 forms (with wrappers of wrappers)"),
+              ("MC_Context_2.cfg", "2 bases x 6 forms")]
     if not quick:
         models.append(("MC_Context_3.cfg", "3 bases x 6 forms"))
     states = trans = 0
@@ -227,7 +236,8 @@ def run(ctx: Ctx) -> Outcome:
                                                   tuple(sorted(k["f"] for k in t["memo"]))) for t in transitions}),
         "rule": "model: complete (stored, memo) state spaces; replay: every transition of the 1-base/10-form "
                 "model (distinct by source state, op, key); traces: random operation sequences of length<=40 "
-                "over 3 bases x 10 forms, non-trivial = at least 3 operations, distinct by operation sequence",
+                "over 3 bases x 14 forms (incl. NewType over alias / NewType / string alias, Final[NewType]), non-trivial = at least 3 "
+                "operations, distinct by operation sequence",
         "model_runs": model_runs,
         "samples": [traces[0], transitions[len(transitions) // 2]],
     }
